@@ -44,27 +44,56 @@ Theorem C12_pre_eval_cache_sufficient : forall B (x y : pre_input),
 Proof. exact pre_cache_sufficient'. Qed.
 
 (** the inverse caches (un / anti / under) and the fast-function cache, keyed by [hash_deep]
-    since 25aa9f6: the key determines everything the cached value is made of except the
-    NAMES of the function handles ... *)
+    (25aa9f6, 7da4086): the key determines everything the cached value is made of — spans,
+    function indices, bodies, names — hence a hit returns what a fresh computation returns,
+    on every history, for every function of those ingredients (name-sensitive outputs too); [inv_deps_named] is everything the
+    inversion reads of its input and of the functions table — NOT the length of the spans table, see below *)
 Theorem C12_inverse_cache_sufficient : forall T (x y : inv_input),
   forallb (wf_sigd T) (fst x) = true -> forallb (wf_sigd T) (fst y) = true ->
-  inv_key x = inv_key y -> inv_deps_no_names x = inv_deps_no_names y.
-Proof. exact inv_cache_sufficient_modulo_names. Qed.
+  inv_key x = inv_key y -> inv_deps_named x = inv_deps_named y.
+Proof. exact inv_cache_sufficient. Qed.
 
 Theorem C12_zip_cache_sufficient : forall T (x y : node),
   wf_sig T x = true -> wf_sig T y = true ->
-  zip_key x = zip_key y -> zip_deps_no_names x = zip_deps_no_names y.
-Proof. exact zip_cache_sufficient_modulo_names. Qed.
+  zip_key x = zip_key y -> zip_deps_named x = zip_deps_named y.
+Proof. exact zip_cache_sufficient. Qed.
 
-(** ... which they do not determine (real pairs: an inversion error / a trace frame naming the
-    function of the earlier program), nor does the purity key determine what is read of the
-    bindings table *)
-Theorem C12_inverse_cache_names_refuted : exists x y, inv_key x = inv_key y /\ inv_deps x <> inv_deps y.
-Proof. exact inv_cache_refuted. Qed.
+Theorem C12_inverse_cache_transparent :
+  forall (K V : Type) (keqb : K -> K -> bool), (forall a b, keqb a b = true <-> a = b) ->
+  forall T (kinj : list node * (N * bool) -> K), (forall a b, kinj a = kinj b -> a = b) ->
+  forall (g : list node * (N * bool) -> V) usable (history : list inv_input),
+    (forall x, In x history -> forallb (wf_sigd T) (fst x) = true) ->
+    run_memo keqb usable (fun x => kinj (inv_key x)) (fun x => g (inv_deps_named x)) history
+    = map (fun x => g (inv_deps_named x)) history.
+Proof. exact (@inv_cache_transparent). Qed.
 
-Theorem C12_zip_cache_names_refuted : exists x y, zip_key x = zip_key y /\ zip_deps x <> zip_deps y.
-Proof. exact zip_cache_refuted. Qed.
+Theorem C12_zip_cache_transparent :
+  forall (K V : Type) (keqb : K -> K -> bool), (forall a b, keqb a b = true <-> a = b) ->
+  forall T (kinj : node -> K), (forall a b, kinj a = kinj b -> a = b) ->
+  forall (g : node -> V) usable (history : list node),
+    (forall x, In x history -> wf_sig T x = true) ->
+    run_memo keqb usable (fun x => kinj (zip_key x)) (fun x => g (zip_deps_named x)) history
+    = map (fun x => g (zip_deps_named x)) history.
+Proof. exact (@zip_cache_transparent). Qed.
 
+(** the function index has to be part of the key although the callee's body is walked:
+    a call kept in the cached value is executed through its index *)
+Theorem C12_inverse_key_needs_index :
+  exists x y, inv_key_no_index x = inv_key_no_index y /\ inv_deps_named x <> inv_deps_named y.
+Proof. exact inv_key_without_index_refuted. Qed.
+
+(** open finding: the inversion also reads the length of the spans table (the "match a constant
+    exactly" inverse), which the key does not feed; with it in the key the cache is sufficient *)
+Theorem C12_inverse_cache_spans_len_refuted :
+  exists x y, inv_key_l x = inv_key_l y /\ inv_deps_l x <> inv_deps_l y.
+Proof. exact inv_cache_spans_len_refuted. Qed.
+
+Theorem C12_inverse_spans_len_sufficient_after_fix : forall T (x y : inv_input_l),
+  forallb (wf_sigd T) (fst (fst x)) = true -> forallb (wf_sigd T) (fst (fst y)) = true ->
+  inv_key_l_fix x = inv_key_l_fix y -> inv_deps_l x = inv_deps_l y.
+Proof. exact inv_l_fix_sufficient. Qed.
+
+(** the purity key does not determine what is read of the bindings table (open finding) *)
 Theorem C12_purity_cache_refuted : exists x y, pur_key x = pur_key y /\ pur_deps x <> pur_deps y.
 Proof. exact pur_cache_refuted. Qed.
 
@@ -91,25 +120,33 @@ Theorem C12_zip_cache_refuted_span_pre : exists x y, zip_key_pre x = zip_key_pre
 Proof. exact zip_cache_refuted_span_pre. Qed.
 Theorem C12_zip_cache_refuted_index_pre : exists x y, zip_key_pre x = zip_key_pre y /\ zip_deps x <> zip_deps y.
 Proof. exact zip_cache_refuted_index_pre. Qed.
+Theorem C12_inverse_cache_names_refuted_pre :
+  exists x y, inv_key_pre_names x = inv_key_pre_names y /\ inv_deps_named x <> inv_deps_named y.
+Proof. exact inv_cache_names_refuted_pre. Qed.
+Theorem C12_zip_cache_names_refuted_pre :
+  exists x y, zip_key_pre_names x = zip_key_pre_names y /\ zip_deps_named x <> zip_deps_named y.
+Proof. exact zip_cache_names_refuted_pre. Qed.
 Theorem C12_repaired_keys_separate_pre :
   inv_key un_w1 <> inv_key un_w2 /\ inv_key un_w3 <> inv_key un_w4 /\
-  zip_key zip_w1 <> zip_key zip_w2 /\ zip_key zip_w3 <> zip_key zip_w4.
+  zip_key zip_w1 <> zip_key zip_w2 /\ zip_key zip_w3 <> zip_key zip_w4 /\
+  inv_key un_n1 <> inv_key un_n2 /\ zip_key zip_n1 <> zip_key zip_n2.
 Proof. exact repaired_keys_separate. Qed.
 
 (** non-vacuity: a history with a repeated key and a non-trivial cached function on which
-    the premises of C12_memo_transparent hold and the table is really consulted; and the
-    refuted inverse key on the model of the real failing pair gives a visible history *)
+    the premises of C12_memo_transparent hold and the table is really consulted; the
+    inverse key separates the pair that differs in the function index only; well-formed inputs exist *)
 Example C12_nonvacuous :
   let key := fun x : N => x mod 3 in
   let f := fun x : N => (x mod 3) * 10 in
   sufficient key f /\
   run_memo N.eqb always key f [4; 7; 5; 1] = [10; 10; 20; 10] /\
-  inv_key un_n1 = inv_key un_n2 /\ forallb (wf_sigd (fun _ => S11)) (fst un_n1) = true /\
+  inv_key ix_w1 <> inv_key ix_w2 /\ forallb (wf_sigd (fun _ => S01c)) (fst ix_w1) = true /\
   sig_key [NMod DIP [(NCall 1 S11 0 99 0 (body_at 2) 5, S11)] 6] =
   sig_key [NMod DIP [(NCall 2 S11 1 99 1 (body_at 3) 9, S11)] 4].
 Proof.
-  repeat split; try reflexivity.
-  intros x y E. cbv beta. rewrite E. reflexivity.
+  split; [intros x y E; cbv beta; rewrite E; reflexivity|].
+  split; [reflexivity|]. split; [exact inv_key_separates_index|].
+  split; reflexivity.
 Qed.
 
 Print Assumptions C12_memo_transparent.
@@ -119,8 +156,11 @@ Print Assumptions C12_sig_cache_sufficient.
 Print Assumptions C12_pre_eval_cache_sufficient.
 Print Assumptions C12_inverse_cache_sufficient.
 Print Assumptions C12_zip_cache_sufficient.
-Print Assumptions C12_inverse_cache_names_refuted.
-Print Assumptions C12_zip_cache_names_refuted.
+Print Assumptions C12_inverse_cache_transparent.
+Print Assumptions C12_zip_cache_transparent.
+Print Assumptions C12_inverse_key_needs_index.
+Print Assumptions C12_inverse_cache_spans_len_refuted.
+Print Assumptions C12_inverse_spans_len_sufficient_after_fix.
 Print Assumptions C12_purity_cache_refuted.
 Print Assumptions C12_inverse_sufficient_after_fix.
 Print Assumptions C12_zip_sufficient_after_fix.
@@ -129,4 +169,6 @@ Print Assumptions C12_inverse_cache_refuted_pre.
 Print Assumptions C12_inverse_fix_input_spans_refuted_pre.
 Print Assumptions C12_zip_cache_refuted_span_pre.
 Print Assumptions C12_zip_cache_refuted_index_pre.
+Print Assumptions C12_inverse_cache_names_refuted_pre.
+Print Assumptions C12_zip_cache_names_refuted_pre.
 Print Assumptions C12_repaired_keys_separate_pre.
